@@ -217,6 +217,9 @@ class BaseSection(base.Sectionable):
             return
 
         term = terminology.load(url)
+        if term is None:
+            raise ValueError("odml.Section.include: '%s' could not be loaded." % url)
+
         new_section = term.get_section_by_path(
             path) if path is not None else term.sections[0]
 
